@@ -293,6 +293,14 @@ class workq:
         )
 
     def pop(self, channels):
+        while True:
+            j = self._pop(channels)
+            if not j.done:
+                return j
+            # finished (killed, timed out, reported) between the hand-off by a
+            # pusher and our wake-up: never hand out a finished job, wait again
+
+    def _pop(self, channels):
         try_channels = channels if channels else list(self.channel2q.keys())
 
         self._preenall()
